@@ -42,7 +42,8 @@ const (
 
 var marsh = &marshal.GogoProtoMarshalizer{}
 
-var delegators = []string{"o", "x", "y"}
+var delegators = []string{"o", "x", "y"}       // TLC-generated behaviours
+var delegators4 = []string{"o", "x", "y", "z"} // recorded histories (New.in.ds)
 
 func pad(s string, n int) []byte {
 	b := bytes.Repeat([]byte{'.'}, n)
@@ -58,7 +59,8 @@ type epochHandler interface {
 
 type sut struct {
 	w    *sysvm.World
-	addr []byte // the delegation contract instance
+	addr []byte   // the delegation contract instance
+	ds   []string // delegator names projected (the owner "o" first)
 }
 
 const never = uint32(1000000)
@@ -155,7 +157,11 @@ func newSut(conf M) *sut {
 			panic("init failed")
 		}
 	}
-	for _, d := range delegators {
+	ds := delegators
+	if l, ok := conf["ds"]; ok {
+		ds = vtrace.Strs(norm(l))
+	}
+	for _, d := range ds {
 		w.Balances[string(user(d))] = big.NewInt(1000000)
 	}
 	w.Balances[string(vm.EndOfEpochAddress)] = big.NewInt(1000000)
@@ -164,7 +170,7 @@ func newSut(conf M) *sut {
 	if res.Code != vmcommon.Ok || len(res.Data) == 0 {
 		panic(fmt.Sprintf("createNewDelegationContract failed: %v %s", res.Code, res.Message))
 	}
-	return &sut{w: w, addr: res.Data[len(res.Data)-1]}
+	return &sut{w: w, addr: res.Data[len(res.Data)-1], ds: ds}
 }
 
 // apply executes one specification action on the real contract: (returned Ok, value transferred to the caller)
@@ -243,7 +249,7 @@ func (s *sut) proj() M {
 		return true, f
 	}
 	del := M{}
-	for _, d := range delegators {
+	for _, d := range s.ds {
 		buf := get(user(d))
 		dd := &systemSmartContracts.DelegatorData{}
 		if len(buf) > 0 {
@@ -407,7 +413,8 @@ func record(seed int64, traces, n int, out string) {
 	rng := rand.New(rand.NewSource(seed))
 	acts := map[string]int{}
 	okCalls := 0
-	fees := []int{0, 0, 1000, 2500, 10000}
+	fees := []int{0, 0, 1000, 2500, 3333, 10000}
+	arithmetic(w)
 	for t := 0; t < traces; t++ {
 		minDel := []int{3, 5, 10}[rng.Intn(3)]
 		minDep := minDel + rng.Intn(4)
@@ -420,7 +427,7 @@ func record(seed int64, traces, n int, out string) {
 			capv = v0 + 5
 		}
 		conf := norm(M{"minDel": minDel, "minDep": minDep, "period": rng.Intn(4), "cap": capv, "fee": fees[rng.Intn(len(fees))],
-			"belowMin": rng.Intn(4) != 0, "v0": v0, "e0": rng.Intn(4), "ubv2": rng.Intn(3) != 0}).(map[string]interface{})
+			"belowMin": rng.Intn(4) != 0, "v0": v0, "e0": rng.Intn(4), "ubv2": rng.Intn(3) != 0, "ds": delegators4}).(map[string]interface{})
 		s := newSut(conf)
 		w.NewTraceWith("New", conf, M{"ok": true, "paid": 0}, s.proj())
 		amount := func() int {
@@ -437,7 +444,7 @@ func record(seed int64, traces, n int, out string) {
 			return 1 + rng.Intn(3*minDel)
 		}
 		for i := 0; i < n; i++ {
-			d := delegators[rng.Intn(3)]
+			d := delegators4[rng.Intn(4)]
 			var a string
 			in := M{"d": d}
 			switch r := rng.Intn(100); {
@@ -461,7 +468,7 @@ func record(seed int64, traces, n int, out string) {
 				a = "ReDelegate"
 			case r < 88:
 				a = "UpdateRewards"
-				in = M{"v": []int{0, 7, 10, 25, 100}[rng.Intn(5)], "auth": rng.Intn(12) != 0}
+				in = M{"v": []int{0, 7, 10, 25, 100, 101, 105}[rng.Intn(7)], "auth": rng.Intn(12) != 0}
 			case r < 90:
 				a = "ChangeFee"
 				in["f"] = fees[rng.Intn(len(fees))]
@@ -480,7 +487,7 @@ func record(seed int64, traces, n int, out string) {
 			w.Emit(a, in, M{"ok": ok, "paid": paid}, s.proj())
 		}
 		// every delegator claims at the end: the history in which all rewards owed are paid out
-		for _, d := range delegators {
+		for _, d := range delegators4 {
 			ok, paid := s.apply("Claim", M{"d": d})
 			w.Emit("Claim", M{"d": d}, M{"ok": ok, "paid": paid}, s.proj())
 		}
@@ -490,6 +497,50 @@ func record(seed int64, traces, n int, out string) {
 	vtrace.Stat("traces", traces)
 	vtrace.Stat("ok_calls", okCalls)
 	vtrace.Stat("actions", acts)
+}
+
+// arithmetic: directed histories for the rewards clause -- several delegators with equal and unequal stakes that do not
+// divide the epoch rewards, service fees 0 / 10 / 33.33 %, several epochs; then some re-delegate and everybody
+// claims, more epochs, everybody claims again.  (Deterministic: independent of the seed.)
+func arithmetic(w *vtrace.Writer) {
+	stakeSets := [][]int{{25, 25, 25, 25}, {1, 2, 3}, {33, 33, 34}, {7, 5, 3, 11}}
+	rewardSets := [][]int{{105, 7}, {101, 10}, {10, 7, 105}}
+	for _, fee := range []int{0, 1000, 3333} {
+		for si, stakes := range stakeSets {
+			rewards := rewardSets[(si+fee)%len(rewardSets)]
+			conf := norm(M{"minDel": 1, "minDep": 1, "period": 1, "cap": 0, "fee": fee, "belowMin": true, "v0": stakes[0],
+				"e0": 1, "ubv2": true, "ds": delegators4}).(map[string]interface{})
+			s := newSut(conf)
+			w.NewTraceWith("New", conf, M{"ok": true, "paid": 0}, s.proj())
+			do := func(a string, in M) {
+				ok, paid := s.apply(a, in)
+				w.Emit(a, in, M{"ok": ok, "paid": paid}, s.proj())
+			}
+			who := delegators4[:len(stakes)]
+			for i, v := range stakes[1:] {
+				do("Delegate", M{"d": who[i+1], "v": v})
+			}
+			for _, r := range rewards {
+				do("NextEpoch", M{"x": 0})
+				do("UpdateRewards", M{"v": r, "auth": true})
+			}
+			for i, d := range who { // every second one re-delegates, then everybody claims what is left
+				if i%2 == 1 {
+					do("ReDelegate", M{"d": d})
+				}
+			}
+			for _, d := range who {
+				do("Claim", M{"d": d})
+			}
+			for _, r := range rewards {
+				do("NextEpoch", M{"x": 0})
+				do("UpdateRewards", M{"v": r + 1, "auth": true})
+			}
+			for _, d := range who {
+				do("Claim", M{"d": d})
+			}
+		}
+	}
 }
 
 func demo() {
